@@ -203,7 +203,10 @@ partial def processEv (pc : PCfg) (rs : RS) (e : Ev) (rest : List Ev) : Except S
     | none => .error "not enabled"
 
 partial def replayLoop (pc : PCfg) (rs : RS) (i : Nat) : List Ev → String
-  | [] => s!"ok ret={retStr rs.s.ret} written={writtenStr rs.s} final={VL.boolStr rs.s.final}"
+  | [] =>
+    if !rs.s.final && (enabled F pc.cfg rs.s).isEmpty then
+      s!"deadlock ret={retStr rs.s.ret} written={writtenStr rs.s}"
+    else s!"ok ret={retStr rs.s.ret} written={writtenStr rs.s} final={VL.boolStr rs.s.final}"
   | e :: rest =>
     if e.release then
       -- a goroutine released from its spawn point also lets the new worker run
@@ -291,6 +294,8 @@ def violation (cfg : Cfg) (s : State) : Option String :=
   let n := cfg.jobs.length
   if s.panicked then some "panic-negative-waitgroup"
   else if !s.final && (enabled F cfg s).isEmpty then some "deadlock"
+  else if (s.workers.filter fun w => w.ops.contains .pp || w.ops.contains .write || w.ops.contains .send).length > conc F cfg then
+    some "more-workers-than-concurrency"
   else if s.ret.isSome && s.workers.any (fun w => !w.quiescent) then some "return-with-work-in-flight"
   else if s.ret == some none && (s.idx < n || s.workers.any (fun w => w.failed) ||
       (List.range s.idx).any (fun k => cfg.jobFails k)) then some "nil-despite-failure"
